@@ -21,7 +21,7 @@ ASSUMPTIONS = [
 ]
 REQUIRED = {t: ['est:hh2', 'est:hierarchical', 'est:prolongate', 'path:serial', 'path:pool', 'density:random', 'density:galerkin',
                 'data:initial', 'data:dirichlet', 'data:both', 'hh2:vanishes', 'curve:UnitSquare', 'curve:PiSquare', 'curve:LShape', 'curve:Circle',
-                'prolongate:identity', 'prolongate:nested', 'history:second-call-other-list']
+                'prolongate:identity', 'prolongate:nested', 'prolongate:same-partition-other-order', 'history:second-call-other-list']
             for t in ('quick', 'thorough')}
 TIMEOUT = {'quick': 1800, 'thorough': 9000}
 CURVES = ['UnitSquare', 'PiSquare', 'LShape', 'Circle']
@@ -290,6 +290,16 @@ def run_prolong(spec, acc):
             acc.seen('est:prolongate')
             if not np.array_equal(same, vec):
                 acc.violation('prolongate-not-identity', '%s: prolongation onto the same list changes values' % d, w)
+            # the same partition enumerated in other orders (re-indexing a density: sorted by time, reversed, shuffled), and fine lists
+            # that are only partly refined / not refined at all (kind 'random' with few steps below)
+            for oname, perm in (('reversed', list(reversed(range(len(coarse))))), ('by-time', sorted(range(len(coarse)), key=lambda i: (coarse[i].time_interval, coarse[i].space_interval))),
+                                ('shuffled', rng.sample(range(len(coarse)), len(coarse)))):
+                out = Prolongate(vec, coarse, [coarse[i] for i in perm])
+                acc.case('prolong|%d|%d|perm-%s' % (spec['rseed'], case, oname), None)
+                acc.seen('prolongate:same-partition-other-order')
+                if len(out) != len(perm) or any(out[j] != vec[i] for j, i in enumerate(perm)):
+                    acc.violation('prolongate-wrong-ancestor:same-partition-other-order',
+                                  '%s: prolongation onto the same leaves listed in another order (%s) does not give every leaf its own value' % (d, oname), dict(w, order=oname))
             kind = rng.choice(['random', 'uniform', 'dorfler'])
             if kind == 'random':
                 for _ in range(rng.randint(1, 30)):
